@@ -35,7 +35,8 @@ RULE = ("cases = (table text, flavor, setup types): tables of 1-8 items (command
         "the opening / closing quote and in the first / last argument (floor of 10 cases per shape); 400 setup-type cases "
         "(arguments also use the seven older variable names, ${UPS_PROD_DIR} ..., which denote the modern ones) "
         "(a --type option as `setup` / `eups -T` / a caller pass it, words from the valid types and an invalid one, blank and "
-        "comma separators, --exact, a table with TYPE conditions, followExact for Table.dependencies).  "
+        "comma separators, --exact, a table with TYPE conditions, followExact for Table.dependencies; then 2-8 further steps "
+        "on the same live Eups object: dependency walks with followExact False / None / True and evaluations as Eups.setup makes them).  "
         "A case is non-trivial when its table has a conditional chain, a legacy group or a quoted argument, or is an "
         "enumerated condition batch; distinct = distinct (text, flavor, types) digests")
 TRUSTED = ["CPython `re` on the patterns of table.py / VersionParser.py (hand-translated to list functions in the model; "
@@ -1190,13 +1191,24 @@ def gen_setuptype_case(rng):
     else:
         arg, words = None, []
     items = gen_table(rng)
+    # a chain that tells `exact` from not: the later evaluations through one Eups object must keep seeing the same types
+    mark = lambda n: {"name": "envSet", "spelled": "envSet", "args": [{"v": "SEEN", "q": False}, {"v": n, "q": False}], "seps": [", "],  # noqa
+                      "pad": False, "gap": "", "semi": ""}
+    items.insert(rng.randint(0, len(items)), {"k": "chain", "branches": [{"cond": ("atom", "TYPE", rng.random() < 0.3, "exact"),
+                                                                           "cmds": [mark("if")]}], "els": [mark("else")]})
     features = set()
     text = join_parts(render_table(rng, items, features))
     fl, ty = mentioned(items)
     flavor = rng.choice(fl + [rng.choice(OTHER_FLAVORS)])
     follow = rng.choice([None, True, False])
+    # a sequence of evaluations on the one live Eups object: dependency walks (inexact ones among them) and
+    # evaluations of the table as Eups.setup does them
+    steps = [rng.choice([{"k": "deps", "fe": False}, {"k": "deps", "fe": None}, {"k": "deps", "fe": True}, {"k": "actions"}, {"k": "actions"}])
+             for _ in range(rng.randint(2, 5))]
+    if rng.random() < 0.5:
+        steps = [{"k": "deps", "fe": False}] + steps + [{"k": "actions"}, {"k": "deps", "fe": None}]
     case = {"kind": "setuptype", "via": via, "arg": arg, "exact": exact, "valid": valid, "text": text, "flavor": flavor,
-            "follow": follow, "expect_types": None, "expect_actions": None, "expect_deptypes": None}
+            "follow": follow, "steps": steps, "expect_types": None, "expect_actions": None, "expect_deptypes": None, "expect_seq": None}
     if claim:
         if any(w not in valid_list for w in words):
             case["expect_types"] = "EupsException"
@@ -1206,6 +1218,14 @@ def gen_setuptype_case(rng):
             case["expect_actions"] = denote_table(items, flavor, types)
             fe = follow if follow is not None else ("exact" in types)
             case["expect_deptypes"] = types if fe else [t for t in types if t != "exact"]
+            seq = []
+            for st in steps:
+                if st["k"] == "deps":
+                    f2 = st["fe"] if st["fe"] is not None else ("exact" in types)
+                    seq.append({"state": types, "asked": types if f2 else [t for t in types if t != "exact"]})
+                else:
+                    seq.append({"state": types, "actions": case["expect_actions"]})
+            case["expect_seq"] = seq
     return case
 
 
@@ -1226,7 +1246,7 @@ def run_impl_setuptype(case):
     if _st_root is None:
         _st_root = common.scratch("c11st")
         common.mkstacks(_st_root, default_product=True)
-    out = {"types": None, "actions": None, "deptypes": None, "cli": None}
+    out = {"types": None, "actions": None, "deptypes": None, "cli": None, "seq": None}
     with contextlib.redirect_stderr(io.StringIO()), contextlib.redirect_stdout(io.StringIO()):
         arg = case["arg"]
         if case["via"] == "cmd":
@@ -1256,6 +1276,28 @@ def run_impl_setuptype(case):
             table.actions = spy
             table.dependencies(E, followExact=case["follow"])
             out["deptypes"] = seen[0] if len(seen) == 1 else {"err": "actions called %d times" % len(seen)}
+            del table.actions
+            # the sequence, on the same live Eups object and the same Table
+            if case.get("steps"):
+                real = table.actions
+                seq = []
+                for st in case["steps"]:
+                    if st["k"] == "deps":
+                        asked = []
+
+                        def spy2(flavor, setupType=[], verbose=0):
+                            asked.append(list(setupType))
+                            return real(flavor, setupType=setupType, verbose=verbose)
+                        table.actions = spy2
+                        try:
+                            table.dependencies(E, followExact=st["fe"])
+                        finally:
+                            del table.actions
+                        seq.append({"state": list(E.setupType), "asked": asked[0] if len(asked) == 1 else {"err": "%d calls" % len(asked)}})
+                    else:
+                        acts = [canon_action(a) for a in table.actions(case["flavor"], setupType=E.setupType)]   # Eups.setup
+                        seq.append({"state": list(E.setupType), "actions": acts})
+                out["seq"] = seq
         except Exception as ex:  # noqa
             out["actions"] = {"err": type(ex).__name__}
     return out
@@ -1306,6 +1348,16 @@ def run_impl_setuptype_chunk(cases):
     return res
 
 
+def conv_seq(seq):
+    out = []
+    for o in seq:
+        o = dict(o)
+        if isinstance(o.get("actions"), dict):
+            o["actions"] = {"err": o["actions"].get("err", "fuel")}
+        out.append(o)
+    return out
+
+
 def evaluate_setuptype(ctx, cases):
     if not cases:
         return
@@ -1325,6 +1377,9 @@ def evaluate_setuptype(ctx, cases):
             fe = c["follow"] if c["follow"] is not None else mt["exact"]
             reqs.append({"m": "c11", "op": "table", "text": c["text"], "flavor": c["flavor"], "types": mt["types"], "pdir": PDIR})
             reqs.append({"m": "c11", "op": "deptypes", "types": mt["types"], "followExact": bool(fe)})
+            if c.get("steps"):
+                reqs.append({"m": "c11", "op": "typeseq", "types": mt["types"], "exact": mt["exact"], "steps": c["steps"],
+                             "text": c["text"], "flavor": c["flavor"], "pdir": PDIR})
     a2 = iter(ctx.lean.ask_many(reqs))
     for c, io_, mt in zip(cases, impls, mts):
         mo = {"types": mt, "actions": None, "deptypes": None}
@@ -1332,8 +1387,11 @@ def evaluate_setuptype(ctx, cases):
             a = next(a2)
             mo["actions"] = a["actions"] if a.get("out") == "ok" else {"err": a.get("err", "fuel")}
             mo["deptypes"] = next(a2)["types"]
-        inp = {k: c[k] for k in ("kind", "via", "arg", "exact", "valid", "text", "flavor", "follow", "expect_types", "expect_actions",
-                                 "expect_deptypes")}
+            if c.get("steps"):
+                mo["seq"] = conv_seq(next(a2)["seq"])
+        mo.setdefault("seq", None)
+        inp = {k: c.get(k) for k in ("kind", "via", "arg", "exact", "valid", "text", "flavor", "follow", "steps", "expect_types",
+                                     "expect_actions", "expect_deptypes", "expect_seq")}
         ctx.hist("kind=setuptype")
         ctx.hist("setuptype_via=" + c["via"])
         ctx.hist("setuptype=" + (io_["types"] if isinstance(io_["types"], str) else "%d types%s" % (len(io_["types"]["types"]), ", exact" if io_["types"]["exact"] else "")))
@@ -1353,6 +1411,16 @@ def evaluate_setuptype(ctx, cases):
             ctx.disagree("actions_via_setup_type", inp, io_, mo)
         elif mo["deptypes"] != io_["deptypes"] and not isinstance(io_["actions"], dict):
             ctx.disagree("dependencies_types", inp, io_, mo)
+        elif io_.get("seq") is not None and not dec and mo["seq"] != io_["seq"]:
+            ctx.disagree("setup_type_sequence", inp, io_, mo)
+        if io_.get("seq") is not None:
+            ctx.hist("setuptype_sequences")
+            ks = [st["k"] if st["k"] == "actions" else "deps" + str(st["fe"]) for st in c["steps"]]
+            has_exact = isinstance(io_["types"], dict) and io_["types"]["exact"]
+            if has_exact and "depsFalse" in ks and "actions" in ks[ks.index("depsFalse"):]:
+                ctx.hist("setuptype_exact_inexact_walk_then_actions")
+            if has_exact and "depsFalse" in ks and [k for k in ks[ks.index("depsFalse") + 1:] if k.startswith("deps")]:
+                ctx.hist("setuptype_exact_inexact_walk_then_walk")
         if c["expect_types"] is not None:
             ctx.hist("setuptype_claimed")
             if io_["types"] != c["expect_types"]:
@@ -1366,6 +1434,10 @@ def evaluate_setuptype(ctx, cases):
             elif c["expect_deptypes"] is not None and io_["deptypes"] != c["expect_deptypes"] and not isinstance(io_["actions"], dict):
                 ctx.fail("dependencies_types", inp, io_, mo, note="Table.dependencies must read the table for the types %s, it asked for %s"
                          % (json.dumps(c["expect_deptypes"]), json.dumps(io_["deptypes"])))
+            elif c.get("expect_seq") is not None and io_.get("seq") is not None and io_["seq"] != c["expect_seq"]:
+                k = next(i for i, (a, b) in enumerate(zip(io_["seq"], c["expect_seq"])) if a != b)
+                ctx.fail("setup_type_sequence", inp, io_, mo, note="step %d (%s) on the same Eups object: expected %s, saw %s"
+                         % (k, json.dumps(c["steps"][k]), json.dumps(c["expect_seq"][k]), json.dumps(io_["seq"][k])))
 
 
 FLOORS_PRESENT = tuple("feature=synonym=" + k for k in SYNONYMS) + ("default_product=name, add=None", "default_product=name+version+tag, add=None", "default_product=name, add=False",
@@ -1428,10 +1500,13 @@ def run(ctx):
     if not ctx.out_of_time():
         evaluate_setuptype(ctx, [gen_setuptype_case(ctx.rng) for _ in range(400)])
         for need in ("setuptype_via=setup", "setuptype_via=cmd", "setuptype_via=init_list", "setuptype=EupsException",
-                     "setuptype_cli=cmd", "setuptype_cli=setup",
+                     "setuptype_cli=cmd", "setuptype_cli=setup", "setuptype_sequences",
                      "setuptype=2 types, exact", "setuptype_claimed"):
             if not ctx.histogram.get(need):
                 raise common.InfraError("degenerate distribution: no case with " + need)
+        for need in ("setuptype_exact_inexact_walk_then_actions", "setuptype_exact_inexact_walk_then_walk"):
+            if ctx.histogram.get(need, 0) < 20:
+                raise common.InfraError("degenerate distribution: %d cases with %s (floor 20)" % (ctx.histogram.get(need, 0), need))
     check_distribution(ctx, generated)
     if not ctx.n(0, 1):
         return
@@ -1488,7 +1563,7 @@ def replay(ctx, rp):
 
 def replay_setuptype(ctx, c):
     c = dict(c)
-    for k in ("expect_types", "expect_actions", "expect_deptypes"):
+    for k in ("expect_types", "expect_actions", "expect_deptypes", "expect_seq", "steps"):
         c.setdefault(k, None)
     r = common.in_child(run_impl_setuptype_chunk, [c])
     io_ = r[1][0] if r[0] == "ok" else {"child": list(r)}
@@ -1503,6 +1578,11 @@ def replay_setuptype(ctx, c):
         mo["actions"] = b[0]["actions"] if b[0].get("out") == "ok" else {"err": b[0].get("err", "fuel")}
         mo["deptypes"] = b[1]["types"]
     mo["cli"] = mo["types"] if io_.get("cli") is not None else None
+    mo["seq"] = None
+    if isinstance(mo["types"], dict) and c.get("steps"):
+        q = ctx.lean.ask_many([{"m": "c11", "op": "typeseq", "types": mo["types"]["types"], "exact": mo["types"]["exact"], "steps": c["steps"],
+                                "text": c["text"], "flavor": c["flavor"], "pdir": PDIR}])[0]
+        mo["seq"] = conv_seq(q["seq"])
     fails = []
     if c["expect_types"] is not None and r[0] == "ok":
         if io_["types"] != c["expect_types"]:
@@ -1513,4 +1593,6 @@ def replay_setuptype(ctx, c):
             fails.append({"clause": "blocks_via_setup_type", "detail": "eups derives %s" % json.dumps(io_["actions"])})
         elif c["expect_deptypes"] is not None and io_["deptypes"] != c["expect_deptypes"] and not isinstance(io_["actions"], dict):
             fails.append({"clause": "dependencies_types", "detail": "Table.dependencies asked for %s" % json.dumps(io_["deptypes"])})
+        elif c.get("expect_seq") is not None and io_.get("seq") is not None and io_["seq"] != c["expect_seq"]:
+            fails.append({"clause": "setup_type_sequence", "detail": "the sequence on one Eups object gave %s" % json.dumps(io_["seq"])})
     return {"input": c, "impl_output": io_, "model_output": mo, "agree": io_ == mo, "fails": fails}
